@@ -135,6 +135,7 @@ class Node:
         self.parent = None
         self.idx = None
         self.autolog = autolog
+        self.forced_id = None           # C19: a deliberately wrong / missing / duplicate id ("" = no id attribute)
 
     # convenience for builders
     def add(self, *kids):
@@ -202,6 +203,8 @@ class Chart:
         return self.byname[ref]
 
     def sid(self, n):
+        if n.forced_id is not None:
+            return n.forced_id
         return "s%d" % n.idx
 
     # --- derived structure
@@ -275,6 +278,21 @@ class Chart:
         return {"id": self.cid, "binding": self.binding, "vars": self.vars,
                 "states": states, "trans": trans, "alldata": alldata,
                 "tags": self.tags}
+
+    def to_raw_value(self):
+        """the document as written, references by id string (C19): ids may be missing, duplicated,
+        targets may name nothing -- structure (parent links) is by index, it is well-formed XML"""
+        states = []
+        for n in self.states:
+            states.append({"id": self.sid(n) if n.kind != "initial" else "", "kind": n.kind,
+                           "parent": n.parent.idx if n.parent else 0, "deep": bool(n.deep),
+                           "initattr": [self.sid(self.resolve(x)) for x in n.initial] if n.initial is not None else []})
+        trans = []
+        for t in self.trans:
+            trans.append({"src": t.src.idx, "kind": t.kind, "ev": t.ev,
+                          "hascond": t.cond is not None,
+                          "tgt": [self.sid(self.resolve(x)) for x in t.tgt]})
+        return {"id": self.cid, "states": states, "trans": trans, "tags": self.tags}
 
     # --- which datamodels can express this chart
     def needs_dm(self):
@@ -396,7 +414,7 @@ class Chart:
             if self.binding == "late":
                 a += ' binding="late"'
         else:
-            a = ' id="%s"' % self.sid(n) if n.kind != "initial" else ""
+            a = ' id="%s"' % self.sid(n) if (n.kind != "initial" and self.sid(n) != "") else ""
         if n.kind == "history":
             a += ' type="%s"' % ("deep" if n.deep else "shallow")
         if n.initial is not None:
